@@ -581,7 +581,6 @@ pub fn execute(sc: &K18) -> Outcome {
     // aircraft the map is currently centred on (Enter on its selected row), and the net zoom since
     let mut centred: Option<(String, i32)> = None;
     let mut centred_at_frame: BTreeMap<u64, Option<(String, i32)>> = BTreeMap::new();
-    let mut iters = 0usize;
     let mut client_consumed = 0usize;
     let mut connected = false;
     let mut backlog_at_frame: BTreeMap<u64, bool> = BTreeMap::new();
@@ -664,7 +663,6 @@ pub fn execute(sc: &K18) -> Outcome {
                 ev_count_at_frame.insert(*k, evs.len());
                 last_frame_k = Some(*k);
                 centred_at_frame.insert(*k, centred.clone());
-                iters += 1;
                 // a client that takes one line per main-loop iteration (the slowest sensible one)
                 // has consumed this many lines by the end of this iteration
                 if connected && client_consumed < delivered_lines {
